@@ -540,7 +540,7 @@ func checkCase(c *gcase, root string, useOracle bool) {
 		viol("import-graph-compile-does-not-terminate", "no result after 20 s", "compile terminates", "watchdog")
 		return
 	case "abort":
-		viol("import-graph-compile-does-not-terminate", fmt.Sprintf("%d Importable.Import calls for %d import expressions (aborted)", len(o.Fetched), c.budget()/2-8),
+		viol("import-graph-compile-exceeds-fetch-budget", fmt.Sprintf("%d Importable.Import calls for %d import expressions (aborted)", len(o.Fetched), c.budget()/2-8),
 			"every module body is compiled at most once, so Import is called at most once per import expression", "fetch budget in the ModuleGetter wrapper")
 		return
 	case "panic":
